@@ -1,6 +1,7 @@
 """C18 - XMAP written by COMA reads back to the same alignments."""
 import io
 
+from vf import core
 from vf import e2e, gen, pipeline, text
 from vf.core import Shard, rng_for
 from vf.checks import c07
@@ -122,7 +123,7 @@ def run_shard(spec):
         rng = rng_for('C18', spec['seed'], spec['shard'], i)
         case = make_case(rng)
         case['gen'] = [spec['seed'], spec['shard'], i]
-        judge(case, spec['workdir'], sh)
+        core.isolated(judge, sh, case, spec['workdir'])
     return sh
 
 
